@@ -101,8 +101,8 @@ class MidiTrack(object):
                 self.set_deltatime(self.delay)
                 self.delay = 0
                 if hasattr(x[2], "bpm"):
-                    self.set_deltatime(0)
                     self.set_tempo(x[2].bpm)
+                    self.set_deltatime(0)
                 self.play_NoteContainer(x[2])
                 self.set_deltatime(self.int_to_varbyte(tick))
                 self.stop_NoteContainer(x[2])
